@@ -383,8 +383,10 @@ PLANS = {
     "C01": plan(["flow_q", "ibc_q"], FLOW_MC + IBC_MC, ["flow_q", "ibc_q"], FLOW_EMIT + IBC_EMIT, W_Q, W_T, reach=["HonestOutstanding"]),
     "C02": plan(["flow_q", "ibc_q", "fees_q"], FLOW_MC + IBC_MC + ["fees_t"], ["flow_treasury_q", "fees_q", "ibc_q"],
                 ["flow_t", "flow_treasury_t", "fees_t"] + IBC_EMIT, W_Q, W_T, reach=["Received"], scen=["KF2"]),
-    "C03": plan(["flow_q", "ibc_q", "same_q", "sender_q"], FLOW_MC + IBC_MC + ["same_t", "sender_q"], ["flow_q", "ibc_q", "same_q", "sender_q"], FLOW_EMIT + IBC_EMIT + ["same_t"], W_Q, W_T),
-    "C04": plan(["flow_q"], FLOW_MC, ["flow_q"], ["flow_extras_t", "flow_t"], W_Q, W_T),
+    "C03": plan(["flow_q", "ibc_q", "same_q", "sender_q", "limits_q"], FLOW_MC + IBC_MC + ["same_t", "sender_q", "limits_q"],
+                ["flow_q", "ibc_q", "same_q", "sender_q", "limits_q"], FLOW_EMIT + IBC_EMIT + ["same_t"], W_Q, W_T),
+    "C04": plan(["flow_q", "limits_q", "limits1_q"], FLOW_MC + ["limits_q", "limits1_q"], ["flow_q", "limits_q", "limits1_q"],
+                ["flow_extras_t", "flow_t", "limits_q", "limits1_q"], W_Q, W_T),
     "C05": plan(["flow_q", "dust_q"], FLOW_MC + ["dust_q"], ["flow_q", "dust_q"], FLOW_EMIT + ["dust_q"], W_Q, W_T, reach=["Received"]),
     "C06": plan(["flow_q"], FLOW_MC, ["flow_q"], FLOW_EMIT, W_Q, W_T, reach=["Received"]),
     "C07": plan(["ibc_q"], IBC_MC, ["ibc_q"], IBC_EMIT + ["ibc_q"], W_Q, W_T, reach=["Refundable"], scen=["KF2"]),
